@@ -71,6 +71,9 @@ impl Check for C02Check {
     }
 
     fn generate(&self, seed: u64, index: u64, tier: Tier) -> Case {
+        if let Some(c) = crate::surface::case_for("C02", seed, index) {
+            return c;
+        }
         let mut st = streams(seed, "C02", index);
         let mut o = TreeOpts::small();
         if tier == Tier::Thorough && st.workload.chance(1, 3) {
@@ -92,11 +95,14 @@ impl Check for C02Check {
     }
 
     fn valid(&self, case: &Case) -> bool {
+        if crate::surface::is_surface(case) {
+            return crate::surface::valid(case);
+        }
         valid::program_ok(&case.program) && pure_tree(&case.program) && case.program.nq <= 2
     }
 
     fn rule(&self) -> String {
-        "case = pure tree program (==, !=, conj, conde, fresh; 1-2 query and 0-2 hidden variables; terms of depth <= 2 over \
+        "Every 64th case is one of the macro-written surface programs for this property (sim/src/surface.rs: list literals with literal tails, three-head improper lists, distinct wildcards, nested empty lists, negative literals in == and !=). case = pure tree program (==, !=, conj, conde, fresh; 1-2 query and 0-2 hidden variables; terms of depth <= 2 over \
          {0, 1, \"a\"} with lists, improper lists and two #[compound] types; a fifth of the programs contain a \
          family of related disequalities) posted in the generated, the reversed or a seeded random order, x (iteration-order policy over \
          run_constraints / push_and_normalize / normalize / purify / DisequalityConstraint::{run,subsumes,walk_star}, \
@@ -110,6 +116,9 @@ impl Check for C02Check {
     }
 
     fn run(&self, case: &Case) -> CaseResult {
+        if crate::surface::is_surface(case) {
+            return crate::surface::run_case(case);
+        }
         let mut facts = Facts::default();
         let order = case.extra["order"].as_u64().unwrap_or(0);
         let perm_seed = case.extra["perm_seed"].as_u64().unwrap_or(0);
